@@ -87,6 +87,17 @@ def child_main(args):
     import faulthandler
 
     faulthandler.enable()
+    # address-space watchdog: a library call that explodes in memory becomes a MemoryError the unit
+    # records (a violation with a witness) instead of an OOM kill of the whole machine
+    try:
+        import resource
+
+        cap = int(float(os.environ.get("VK_MEM_GB", "16")) * 2**30)
+        soft, hard = resource.getrlimit(resource.RLIMIT_AS)
+        if cap > 0 and (hard == resource.RLIM_INFINITY or cap <= hard):
+            resource.setrlimit(resource.RLIMIT_AS, (cap, hard))
+    except Exception:  # noqa: BLE001
+        pass
     from vk import core
 
     import_target()
